@@ -10,6 +10,9 @@ import (
 	"github.com/gogo/protobuf/proto"
 	abci "github.com/tendermint/tendermint/abci/types"
 
+	evmtypes "github.com/tharsis/ethermint/x/evm/types"
+
+	packetcontract "github.com/teleport-network/teleport/syscontracts/xibc_packet"
 	tsstypes "github.com/teleport-network/teleport/x/xibc/clients/tss-client/types"
 	clienttypes "github.com/teleport-network/teleport/x/xibc/core/client/types"
 	"github.com/teleport-network/teleport/x/xibc/core/host"
@@ -44,7 +47,13 @@ type Step struct {
 	NewTss int    `json:"new_tss,omitempty"`
 	NewUp  bool   `json:"new_up,omitempty"`
 	Dst    string `json:"dst,omitempty"` // recv: packet destination ("" = this chain)
-	FeeOpt uint64 `json:"fee_opt,omitempty"`
+	// recv: what the packet carries, i.e. which way the destination callback goes:
+	//   ""       transfer data that is not an ABI tuple (the packet contract reports the failure by value)
+	//   "cbfail" no transfer data, call data that is not an ABI tuple (onRecvPacket reverts: CallPacket returns an error)
+	//   "ok"     no transfer data, call data = a harmless view call (result code 0)
+	//   "revert" no transfer data, call data whose inner call reverts (reported by value)
+	Payload string `json:"payload,omitempty"`
+	FeeOpt  uint64 `json:"fee_opt,omitempty"`
 	// content of the acknowledgement submitted by an ack step
 	AckRelayer string `json:"ack_relayer,omitempty"`
 	AckCode    uint64 `json:"ack_code,omitempty"`
@@ -75,6 +84,7 @@ type StepObs struct {
 	Clients []ClientFact `json:"clients"`
 	Self    string       `json:"self"`
 	Lower   int          `json:"lower"`
+	Cb      *CbFact      `json:"cb,omitempty"` // recv addressed to this chain, lower layer accepted: the tabulated callback
 	// the message as built
 	SignerStr string  `json:"signer_str,omitempty"`
 	Src       string  `json:"src,omitempty"`
@@ -90,6 +100,15 @@ type StepObs struct {
 	Ack       *AckObs      `json:"ack,omitempty"`
 	AckStored bool         `json:"ack_stored"`
 	Payee     string       `json:"payee,omitempty"`
+}
+
+// CbFact: CallPacket(onRecvPacket) + UnpackIntoInterface run by the harness on a discarded branch
+// kind: 1 CallPacket returned an error, 2 returned and decoded, 3 returned but does not decode, 4 panic
+type CbFact struct {
+	Kind    int    `json:"kind"`
+	Code    uint64 `json:"code"`
+	Result  string `json:"result"` // hex
+	Message string `json:"message"`
 }
 
 type Result struct {
@@ -236,6 +255,9 @@ func genSpec(r *hlib.Rand, id int, nsteps int) Spec {
 			sp.Steps = append(sp.Steps, st)
 		default:
 			st := Step{Chain: pickChain()}
+			if _, hasSelf := tssAcct["@self"]; hasSelf && r.Chance(1, 6) {
+				st.Chain = "@self" // packets that are not for this chain (relay / unknown-destination branches)
+			}
 			switch {
 			case k < 50:
 				st.K = "update"
@@ -284,6 +306,7 @@ func genSpec(r *hlib.Rand, id int, nsteps int) Spec {
 				}
 			case "recv":
 				st.FeeOpt = uint64(r.Intn(3))
+				st.Payload = []string{"", "", "cbfail", "cbfail", "cbfail", "ok", "ok", "revert", "revert", ""}[r.Intn(10)]
 				if st.Chain == "@self" {
 					if r.Bool() {
 						st.Dst = "ghost-net"
@@ -450,7 +473,8 @@ func (w *World) runStep(st Step, canon map[string]string, bech map[string]bool) 
 		} else if w.isLight(chain) {
 			B := w.B
 			seq := B.App.XIBCKeeper.PacketKeeper.GetNextSequenceSend(B.GetContext(), B.ChainID, A.ChainID)
-			p := packettypes.NewPacket(B.ChainID, A.ChainID, seq, "sender", []byte("transfer"), nil, "", st.FeeOpt)
+			td, cd := w.payload(st.Payload)
+			p := packettypes.NewPacket(B.ChainID, A.ChainID, seq, "sender", td, cd, "", st.FeeOpt)
 			must(B.App.XIBCKeeper.PacketKeeper.SendPacket(B.GetContext(), p))
 			w.syncClientOfB()
 			proof, ph := B.QueryProof(host.PacketCommitmentKey(B.ChainID, A.ChainID, seq))
@@ -462,7 +486,8 @@ func (w *World) runStep(st Step, canon map[string]string, bech map[string]bool) 
 			m = packettypes.NewMsgRecvPacket(bz, proof, ph, signer.addr)
 		} else {
 			w.tssSeq++
-			p := packettypes.NewPacket(chain, dst, w.tssSeq, "sender", []byte("transfer"), nil, "", st.FeeOpt)
+			td, cd := w.payload(st.Payload)
+			p := packettypes.NewPacket(chain, dst, w.tssSeq, "sender", td, cd, "", st.FeeOpt)
 			if st.Flavor == "bad" {
 				p.Sequence = 0 // fails packet validation
 			}
@@ -485,6 +510,12 @@ func (w *World) runStep(st Step, canon map[string]string, bech map[string]bool) 
 		}
 		cctx, _ := A.GetContext().CacheContext()
 		o.Lower = classOf(func() error { return pk.RecvPacket(cctx, &low) })
+		if o.Lower == 0 && p.DstChain == ck.GetChainName(cctx) {
+			// the destination callback, run by the harness itself on a branch of that branch
+			o.Cb = tabulateCallback(func(c sdk.Context) (*evmtypes.MsgEthereumTxResponse, error) {
+				return pk.CallPacket(c, "onRecvPacket", p)
+			}, cctx)
+		}
 	case "ack":
 		ack := packettypes.NewAcknowledgement(st.AckCode, nil, st.AckMsg, st.AckRelayer, st.AckFeeOpt)
 		if st.Flavor == "zero" {
@@ -606,6 +637,50 @@ func (w *World) runStep(st Step, canon map[string]string, bech map[string]bool) 
 		}
 	}
 	return o
+}
+
+// payload: transfer data / call data of a packet to be received (see Step.Payload)
+func (w *World) payload(kind string) (transfer, call []byte) {
+	pack := func(inner []byte) []byte {
+		cd, err := (&packettypes.CallData{ContractAddress: strings.ToLower(packetcontract.PacketContractAddress.Hex()), CallData: inner}).ABIPack()
+		must(err)
+		return cd
+	}
+	switch kind {
+	case "cbfail":
+		return nil, []byte("not-abi-call-data")
+	case "ok":
+		view, err := packetcontract.PacketContract.ABI.Pack("chainName")
+		must(err)
+		return nil, pack(view)
+	case "revert":
+		// a privileged method of the packet contract called from the execute contract: the inner call fails
+		priv, err := packetcontract.PacketContract.ABI.Pack("setChainName", "renamed-by-packet")
+		must(err)
+		return nil, pack(priv)
+	}
+	return []byte("transfer"), nil
+}
+
+func tabulateCallback(call func(sdk.Context) (*evmtypes.MsgEthereumTxResponse, error), ctx sdk.Context) (f *CbFact) {
+	f = &CbFact{}
+	defer func() {
+		if r := recover(); r != nil {
+			f = &CbFact{Kind: 4}
+		}
+	}()
+	c2, _ := ctx.CacheContext()
+	res, err := call(c2)
+	if err != nil {
+		f.Kind = 1
+		return f
+	}
+	var result packettypes.Result
+	if err := packetcontract.PacketContract.ABI.UnpackIntoInterface(&result, "onRecvPacket", res.Ret); err != nil {
+		f.Kind = 3
+		return f
+	}
+	return &CbFact{Kind: 2, Code: result.Code, Result: hlib.Hex(result.Result), Message: result.Message}
 }
 
 func (w *World) balances() []sdk.Int {
